@@ -17,8 +17,10 @@ def run(ctx):
         "documented Pauli matrices; scipy.sparse.kron index rule (A (x) B)[i, j] = A[i // 2, j // 2] B[i % 2, j % 2] as modelled; "
         "numpy oracle (sweep_C05.py) also for "
         "Trotter-Suzuki, label interning and string round trip",
-        "partial: the sparse formats other than the dense view, PauliLabel interning/str parsing have no "
-        "theorem (sweep only); coefficients are exact ring elements in the theorems (binary64 rounding not modelled)",
+        "coq/model/LabelString.v: character-level model of PauliLabel.__str__ / _parse_pauli_label_str (ASCII white space and digits; "
+        "Python's re / str.split / int contracts as modelled), tied by corr_C05_str.py; the WeakValueDictionary intern table itself is "
+        "checked on the real objects only",
+        "partial: the sparse formats other than the dense view; non-ASCII white space / digits in label strings; coefficients are exact ring elements in the theorems (binary64 rounding not modelled)",
     ]
     ctx.translate("tables", tables.run_c06, os.path.join(ctx.work, "gen"), os.path.join(ctx.work, "conjtab.json"))
     fingerprint.check(ctx, "packages/core/quri_parts/core/operator/pauli.py", ["pauli_product", "PauliLabel.__str__",
@@ -36,4 +38,5 @@ def run(ctx):
     ctx.harness("corr_C05.py", kind="corr")
     ctx.harness("corr_C05_export.py", kind="corr")
     ctx.harness("corr_C05_tamp.py", kind="corr")
+    ctx.harness("corr_C05_str.py", kind="corr")
     ctx.harness("sweep_C05.py")
